@@ -2346,3 +2346,356 @@ R("nodowngrade-via-store-predicate", ["C19"],
 					continue
 				}
 """))
+
+# ------------------------------------------------------------------ round 3 rules
+BIDC = "external_apps/bid/bid_action/common.go"
+M("closebid-leaves-target-prefix", "C07", "C07.sticky",
+  (BIDC, """	err := bidMasterStore.BidConv.WithPrefixType(targetState).Set(bidConv)
+	if err != nil {
+		return bid_data.ErrAddingBidConvToTargetStore.Wrap(err)
+	}
+
+	//delete it from ACTIVE store
+	ok, err := bidMasterStore.BidConv.WithPrefixType(bid_data.BidStateActive).Delete(bidConv.BidConvId)
+	if err != nil || !ok {
+		return bid_data.ErrDeletingBidConvFromActiveStore.Wrap(err)
+	}
+	return nil""", """	ok, err := bidMasterStore.BidConv.WithPrefixType(bid_data.BidStateActive).Delete(bidConv.BidConvId)
+	if err != nil || !ok {
+		return bid_data.ErrDeletingBidConvFromActiveStore.Wrap(err)
+	}
+	err = bidMasterStore.BidConv.WithPrefixType(targetState).Set(bidConv)
+	if err != nil {
+		return bid_data.ErrAddingBidConvToTargetStore.Wrap(err)
+	}
+	return nil"""))
+R("closebid-swapped-but-hook-selects", ["C07"],
+  (BIDC, """	err := bidMasterStore.BidConv.WithPrefixType(targetState).Set(bidConv)
+	if err != nil {
+		return bid_data.ErrAddingBidConvToTargetStore.Wrap(err)
+	}
+
+	//delete it from ACTIVE store
+	ok, err := bidMasterStore.BidConv.WithPrefixType(bid_data.BidStateActive).Delete(bidConv.BidConvId)
+	if err != nil || !ok {
+		return bid_data.ErrDeletingBidConvFromActiveStore.Wrap(err)
+	}
+	return nil""", """	ok, err := bidMasterStore.BidConv.WithPrefixType(bid_data.BidStateActive).Delete(bidConv.BidConvId)
+	if err != nil || !ok {
+		return bid_data.ErrDeletingBidConvFromActiveStore.Wrap(err)
+	}
+	err = bidMasterStore.BidConv.WithPrefixType(targetState).Set(bidConv)
+	if err != nil {
+		return bid_data.ErrAddingBidConvToTargetStore.Wrap(err)
+	}
+	return nil"""),
+  ("external_apps/bid/bid_block_func/bid_block_func.go", """	bidConvStore := bidMasterStore.BidConv
+""", """	bidConvStore := bidMasterStore.BidConv.WithPrefixType(bid_data.BidStateActive)
+"""))
+R("closebid-restores-default-explicitly", ["C07"],
+  (BIDC, """	ok, err := bidMasterStore.BidConv.WithPrefixType(bid_data.BidStateActive).Delete(bidConv.BidConvId)
+	if err != nil || !ok {
+		return bid_data.ErrDeletingBidConvFromActiveStore.Wrap(err)
+	}
+	return nil""", """	active := bidMasterStore.BidConv.WithPrefixType(bid_data.BidStateActive)
+	ok, err := active.Delete(bidConv.BidConvId)
+	if err != nil || !ok {
+		return bid_data.ErrDeletingBidConvFromActiveStore.Wrap(err)
+	}
+	return nil"""))
+M("validatefee-mutates-shared-minfee", "C07", "C07.bigalias",
+  ("action/base.go", """	if minFee.Amount.BigInt().Cmp(fee.Price.Value.BigInt()) > 0 {
+		return ErrInvalidFeePrice
+	}""", """	if price := fee.Price.Value.BigInt(); minFee.Amount.BigInt().Cmp(price) > 0 {
+		short := minFee.Amount.BigInt()
+		return ErrInvalidFeePrice.Wrap(errors.Errorf("short by %s", short.Sub(short, price)))
+	}"""))
+R("validatefee-shortfall-on-fresh-number", ["C07"],
+  ("action/base.go", """	if minFee.Amount.BigInt().Cmp(fee.Price.Value.BigInt()) > 0 {
+		return ErrInvalidFeePrice
+	}""", """	if price := fee.Price.Value.BigInt(); minFee.Amount.BigInt().Cmp(price) > 0 {
+		short := new(big.Int).Sub(minFee.Amount.BigInt(), price)
+		return ErrInvalidFeePrice.Wrap(errors.Errorf("short by %s", short))
+	}"""),
+  ("action/base.go", """import (
+""", """import (
+	"math/big"
+"""))
+M("loaddb-lazy-load", "C09", "C09.versions.reopen",
+  ("storage/chainstate.go", "	version, err := tree.Load()", "	version, err := tree.LazyLoadVersion(0)"))
+R("loaddb-loadversion-zero", ["C09", "C08"],
+  ("storage/chainstate.go", "	version, err := tree.Load()", "	version, err := tree.LoadVersion(0)"))
+M("stakeclean-swapped-roles", "C11", "C11.roles",
+  ("action/staking/stake.go", "ctx.Delegators.GetValidatorDelegationAmount(v.Address, v.StakeAddress)", "ctx.Delegators.GetValidatorDelegationAmount(v.StakeAddress, v.Address)"))
+R("stakeclean-roles-via-locals", ["C11"],
+  ("action/staking/stake.go", "	lockedAmt, err := ctx.Delegators.GetValidatorDelegationAmount(v.Address, v.StakeAddress)", """	validatorAddress, delegatorAddress := v.Address, v.StakeAddress
+	lockedAmt, err := ctx.Delegators.GetValidatorDelegationAmount(validatorAddress, delegatorAddress)"""))
+M("delegation-load-accumulates", "C11", "C11.dumpload",
+  ("data/delegation/store.go", """		err := st.SetValidatorDelegationAmount(vdm.Validator, vdm.Delegator, *vdm.Amount)""", """		err := st.AddToAddress(vdm.Validator, vdm.Delegator, *vdm.Amount)"""))
+M("delegation-load-drops-table", "C11", "C11.dumpload",
+  ("data/delegation/store.go", """	// load each delegator bounded amount
+	for _, dm := range state.DelegatorBoundedAmounts {
+		err := st.SetDelegatorBoundedAmount(dm.Address, *dm.Amount)
+		if err != nil {
+			return
+		}
+	}
+""", ""))
+R("delegation-load-reordered", ["C11"],
+  ("data/delegation/store.go", """	// load each validator's total amount
+	for _, dm := range state.ValidatorAmounts {
+		err := st.SetValidatorAmount(dm.Address, *dm.Amount)
+		if err != nil {
+			return
+		}
+	}
+	// load each validator_delegator amount
+	for _, vdm := range state.ValidatorDelegationAmounts {
+		err := st.SetValidatorDelegationAmount(vdm.Validator, vdm.Delegator, *vdm.Amount)
+		if err != nil {
+			return
+		}
+	}""", """	// load each validator_delegator amount
+	for _, vdm := range state.ValidatorDelegationAmounts {
+		if err := st.SetValidatorDelegationAmount(vdm.Validator, vdm.Delegator, *vdm.Amount); err != nil {
+			return
+		}
+	}
+	// load each validator's total amount
+	for i := range state.ValidatorAmounts {
+		dm := state.ValidatorAmounts[i]
+		if err := st.SetValidatorAmount(dm.Address, *dm.Amount); err != nil {
+			return
+		}
+	}"""))
+GOVU = "action/govUpdate.go"
+M("topcount-assigned-after-validation", "C10", "C10.options",
+  (GOVU, """	Options.TopValidatorCount = newValue
+
+	ok, err := ctx.GovernanceStore.ValidateStaking(Options)
+	if err != nil {
+		return false, err
+	}
+	if !ok {
+		return false, errors.New("Validation Failed")
+	}
+	if validationOnly == ValidateOnly {
+		return true, nil
+	}
+""", """	ok, err := ctx.GovernanceStore.ValidateStaking(Options)
+	if err != nil {
+		return false, err
+	}
+	if !ok {
+		return false, errors.New("Validation Failed")
+	}
+	if validationOnly == ValidateOnly {
+		return true, nil
+	}
+	Options.TopValidatorCount = newValue
+"""))
+R("topcount-validate-in-one-expression", ["C10"],
+  (GOVU, """	Options.TopValidatorCount = newValue
+
+	ok, err := ctx.GovernanceStore.ValidateStaking(Options)
+	if err != nil {
+		return false, err
+	}
+	if !ok {
+		return false, errors.New("Validation Failed")
+	}
+	if validationOnly == ValidateOnly {""", """	Options.TopValidatorCount = newValue
+
+	if ok, err := ctx.GovernanceStore.ValidateStaking(Options); err != nil {
+		return false, err
+	} else if !ok {
+		return false, errors.New("Validation Failed")
+	}
+	if validationOnly == ValidateOnly {"""))
+M("lastactive-reset-removed", "C08", "C08.rebuild",
+  ("identity/validator_set.go", "	vs.lastActive = make(map[string]int64)\n", "", 1))
+M("setup-skips-cache-by-memory", "C08", "C08.rebuild",
+  ("identity/validator_set.go", """	vs.cacheActiveValidators(req.LastCommitInfo)
+
+	return def""", """	if len(req.LastCommitInfo.Votes) != len(vs.lastActive) {
+		vs.cacheActiveValidators(req.LastCommitInfo)
+	}
+
+	return def"""))
+M("setup-skips-cache-by-memory-c10", "C10", "C10.rebuild",
+  ("identity/validator_set.go", """	vs.cacheActiveValidators(req.LastCommitInfo)
+
+	return def""", """	if len(req.LastCommitInfo.Votes) != len(vs.lastActive) {
+		vs.cacheActiveValidators(req.LastCommitInfo)
+	}
+
+	return def"""))
+R("setup-skips-cache-by-block-data", ["C08", "C10"],
+  ("identity/validator_set.go", """	vs.cacheActiveValidators(req.LastCommitInfo)
+
+	return def""", """	if req.Header.GetHeight() >= 0 {
+		vs.cacheActiveValidators(req.LastCommitInfo)
+	}
+
+	return def"""))
+M("olvm-derived-state", "C06", "C06.onestate",
+  ("action/olvm/handler.go", """	evmTx := vm.NewEVMTransaction(
+		ctx.StateDB,""", """	evmTx := vm.NewEVMTransaction(
+		ctx.StateDB.WithState(ctx.State.WithGas(ctx.State.GetCalculator())),"""))
+SESS = "storage/session_cache.go"
+M("session-pooled", "C06", "C06.fresh-session",
+  (SESS, """type sessionCache struct {
+	name  string""", """type sessionCache struct {
+	session *cacheSession
+	name  string"""),
+  (SESS, """func (c *sessionCache) BeginSession() Session {
+	return &cacheSession{
+		parent: c,
+		store:  map[string][]byte{},
+		keys:   make([]string, 0, 10),
+		done:   map[string]bool{},
+	}
+}""", """func (c *sessionCache) BeginSession() Session {
+	if c.session == nil {
+		c.session = &cacheSession{
+			parent: c,
+			store:  map[string][]byte{},
+			keys:   make([]string, 0, 10),
+			done:   map[string]bool{},
+		}
+		return c.session
+	}
+	c.session.keys = c.session.keys[:0]
+	c.session.done = map[string]bool{}
+	return c.session
+}"""))
+R("session-built-in-steps", ["C06", "C09"],
+  (SESS, """func (c *sessionCache) BeginSession() Session {
+	return &cacheSession{
+		parent: c,
+		store:  map[string][]byte{},
+		keys:   make([]string, 0, 10),
+		done:   map[string]bool{},
+	}
+}""", """func (c *sessionCache) BeginSession() Session {
+	s := &cacheSession{parent: c}
+	s.store = make(map[string][]byte)
+	s.keys = make([]string, 0, 16)
+	s.done = make(map[string]bool)
+	return s
+}"""))
+KEYS = "data/keys/keys.go"
+M("pubkey-size-by-copy-result", "C04", "C04.keysize",
+  (KEYS, """		size := ed25519.PubKeyEd25519Size
+		if len(pubKey.Data) != size {
+			return new(PublicKeyED25519),
+				fmt.Errorf("given key doesn't match the size of the key algorithm %s length %d", pubKey.KeyType.String(), len(pubKey.Data))
+		}
+		var key [ED25519_PUB_SIZE]byte
+		copy(key[:], pubKey.Data)
+		return PublicKeyED25519{key}, nil""", """		var key [ED25519_PUB_SIZE]byte
+		if copy(key[:], pubKey.Data) != ed25519.PubKeyEd25519Size {
+			return new(PublicKeyED25519),
+				fmt.Errorf("given key doesn't match the size of the key algorithm %s length %d", pubKey.KeyType.String(), len(pubKey.Data))
+		}
+		return PublicKeyED25519{key}, nil"""))
+R("pubkey-size-positive-form", ["C04"],
+  (KEYS, """		size := ed25519.PubKeyEd25519Size
+		if len(pubKey.Data) != size {
+			return new(PublicKeyED25519),
+				fmt.Errorf("given key doesn't match the size of the key algorithm %s length %d", pubKey.KeyType.String(), len(pubKey.Data))
+		}
+		var key [ED25519_PUB_SIZE]byte
+		copy(key[:], pubKey.Data)
+		return PublicKeyED25519{key}, nil""", """		if len(pubKey.Data) == ED25519_PUB_SIZE {
+			var key [ED25519_PUB_SIZE]byte
+			copy(key[:], pubKey.Data)
+			return PublicKeyED25519{key}, nil
+		}
+		return new(PublicKeyED25519),
+			fmt.Errorf("given key doesn't match the size of the key algorithm %s length %d", pubKey.KeyType.String(), len(pubKey.Data))"""))
+M("btc-reset-refund-swapped", "C03", "C03.btcdelta",
+  ("action/btc/failed_broadcast_reset.go", "		amount := tracker.CurrentBalance - tracker.ProcessBalance", "		amount := tracker.ProcessBalance - tracker.CurrentBalance"))
+M("btc-mint-for-any-process", "C02", "C02.btcdelta",
+  ("action/btc/check_finality.go", "	if tracker.ProcessType == bitcoin.ProcessTypeLock {", "	if tracker.ProcessType != bitcoin.ProcessTypeNone {"))
+R("btc-mint-guard-negated-form", ["C02", "C03"],
+  ("action/btc/failed_broadcast_reset.go", """	if tracker.ProcessType == bitcoin.ProcessTypeRedeem {
+		amount := tracker.CurrentBalance - tracker.ProcessBalance
+""", """	if !(tracker.ProcessType != bitcoin.ProcessTypeRedeem) {
+		cur, proc := tracker.CurrentBalance, tracker.ProcessBalance
+		amount := cur - proc
+"""))
+M("btc-finality-keeps-reset-votes", "C02", "C02.btcend",
+  ("action/btc/check_finality.go", "	tracker.ResetVotes = nil\n", "", 1))
+R("btc-finality-empty-slice-votes", ["C02"],
+  ("action/btc/check_finality.go", "	tracker.ResetVotes = nil\n", "	tracker.ResetVotes = []keys.Address{}\n", 1))
+M("sendpool-read-under-loglevel", "C01", "C01.nodelocal.region",
+  ("log/logger.go", """// WithPrefix returns a new logger with the prefix appended to the current logger's prefix""", """// IsLevelEnabled tells whether messages of the given level are written by this logger
+func (l *Logger) IsLevelEnabled(level Level) bool {
+	return level <= l.level
+}
+
+// WithPrefix returns a new logger with the prefix appended to the current logger's prefix"""),
+  ("action/transfer/sendPool.go", """	oldBalance, err := ctx.Balances.GetBalance(toPool, ctx.Currencies)
+	if err != nil {
+		return helpers.LogAndReturnFalse(ctx.Logger, action.ErrInvalidCurrency, sendPool.Tags(), errors.Wrap(err, "Pool is not Funded by OLT"))
+	}
+	updatedBalance := oldBalance.GetCoin(currencyOlt).Plus(coin)
+""", """	updatedBalance := coin
+	if ctx.Logger.IsLevelEnabled(4) {
+		oldBalance, err := ctx.Balances.GetBalance(toPool, ctx.Currencies)
+		if err != nil {
+			return helpers.LogAndReturnFalse(ctx.Logger, action.ErrInvalidCurrency, sendPool.Tags(), errors.Wrap(err, "Pool is not Funded by OLT"))
+		}
+		updatedBalance = oldBalance.GetCoin(currencyOlt).Plus(coin)
+	}
+"""))
+R("logger-level-helper-used-by-logger-only", ["C01"],
+  ("log/logger.go", """// WithPrefix returns a new logger with the prefix appended to the current logger's prefix""", """// IsLevelEnabled tells whether messages of the given level are written by this logger
+func (l *Logger) IsLevelEnabled(level Level) bool {
+	return level <= l.level
+}
+
+// WithPrefix returns a new logger with the prefix appended to the current logger's prefix"""),
+  ("log/logger.go", """	if level > l.level {
+		return
+	}""", """	if !l.IsLevelEnabled(level) {
+		return
+	}"""))
+M("suicide-keeps-balance", "C16", "C16.suicide",
+  ("vm/statedb.go", "	so.markSuicided()\n	so.SetBalance(new(big.Int))\n", "	so.markSuicided()\n"))
+R("suicide-zero-via-newint", ["C16", "C02"],
+  ("vm/statedb.go", "	so.SetBalance(new(big.Int))\n\n	return true", "	so.SetBalance(big.NewInt(0))\n\n	return true"))
+M("adddirty-set-semantics", "C16", "C16.dirtycount",
+  ("vm/journal.go", """	idx, found := j.addressToJournalIndex[addr]
+	if !found {
+		j.dirties = append(j.dirties, dirty{address: addr, changes: 0})
+		idx = len(j.dirties) - 1
+		j.addressToJournalIndex[addr] = idx
+	}
+
+	j.dirties[idx].changes++
+}""", """	if _, found := j.addressToJournalIndex[addr]; found {
+		return
+	}
+
+	j.dirties = append(j.dirties, dirty{address: addr, changes: 1})
+	j.addressToJournalIndex[addr] = len(j.dirties) - 1
+}"""))
+R("adddirty-count-one-at-creation", ["C16"],
+  ("vm/journal.go", """	idx, found := j.addressToJournalIndex[addr]
+	if !found {
+		j.dirties = append(j.dirties, dirty{address: addr, changes: 0})
+		idx = len(j.dirties) - 1
+		j.addressToJournalIndex[addr] = idx
+	}
+
+	j.dirties[idx].changes++
+}""", """	if idx, found := j.addressToJournalIndex[addr]; found {
+		j.dirties[idx].changes++
+		return
+	}
+
+	j.dirties = append(j.dirties, dirty{address: addr, changes: 1})
+	j.addressToJournalIndex[addr] = len(j.dirties) - 1
+}"""))
